@@ -51,6 +51,16 @@ INFO = {
  'C21-b': ('C21', 'LTermIterMut stops before the improper tail: needs an improper list traversed mutably (iter_mut / IndexMut at the tail position)', ['C21']),
  'C23-b': ('C23', 'Sparse x Sparse intersection returns an EMPTY domain for overlapping-range sets without a common value: needs two interleaving sparse domains meeting on one variable ({-1,1} and {0,2}); later min/max/labeling panics', ['C23', 'C16', 'C17', 'C18']),
  'C24-b': ('C24', 'push_and_normalize discards the NEW disequality when it subsumes a stored one: needs list elements that are lists sharing variables (multi-pair weak constraint first, stronger one later) in distinct/member1/rember', ['C24', 'C02']),
+ 'C02-c': ('C02', 'DisequalityConstraint::walk_star skips the walk when no operand (top-level variable) is bound: needs a disequality whose VALUE side is a list/compound holding a variable that is later bound, key still free in the answer (purify then drops the constraint)', ['C02', 'C03']),
+ 'C03-c': ('C03', 'same change as C14-b, found independently (SMap::reify skips free variables named _)', ['C03', 'C14']),
+ 'C05-c': ('C05', 'the macro expands the alternatives of a `p1 | p2 | ..` arm right to left (pop from the back): needs dfs, SURFACE syntax and an arm with >= 2 alternatives that both match', ['C05', 'C13']),
+ 'C06-c': ('C06', 'same mechanism as C02-a, found independently (per-pair clone in DisequalityConstraint::run): needs a non-linear disequality and a later conflicting binding', ['C06', 'C02']),
+ 'C08-c': ('C08', 'onceo passes its body clauses to Condu::from_conjunctions directly (each clause becomes a condu clause): needs an onceo with more than one body goal', ['C08', 'C14']),
+ 'C09-c': ('C09', 'DisequalityConstraint::run sorts its pairs by variable NAME (stable sort over HashMap order): needs >= 2 pairs whose key variables share a name (user-written _), a var-var chain, a later unification, and a cross-run comparison of the constraint text', ['C09']),
+ 'C10-c': ('C10', 'the conde keyword lifts the arms of a nested conde that is the FIRST goal of an arm and drops the goals after it: needs conde { [conde { .. }, g, ..], .. } built through operator::conde', ['C10', 'C04']),
+ 'C16-c': ('C16', 'update_var_domain returns early when the new domain spans the stored one by its bounds: needs a sparse domain with interior holes merged into an existing domain inside its span (second infd, or directional x == y)', ['C16', 'C17']),
+ 'C17-c': ('C17', 'DistinctFd2Constraint appends newly bound values unsorted while the duplicate test binary-searches: needs an aliased list element (z == w) and two other elements labelled in descending order; yields spurious answers, so it is C16 (soundness) that observes it', ['C16']),
+ 'C22-c': ('C22', 'State::take_constraint calls U::take_constraint even when the store did not hold the constraint: needs a constraint that removes itself during run_constraints (subsumed disequality / nested FD propagation)', ['C22']),
 }
 logs = ''
 for f in glob.glob(os.path.join(ROOT, 'verify_wave*.log')) + glob.glob('/tmp/verify_wave*.log'):
@@ -61,7 +71,7 @@ def results(dirname):
     return out
 blocks = {}
 for f in sorted(set(glob.glob(os.path.join(ROOT, 'verify_wave*.log')) + glob.glob('/tmp/verify_wave*.log'))):
-    rnd = 'b' if ('wave4' in f or 'wave5' in f) else 'a'
+    rnd = 'c' if 'wave6' in f else ('b' if ('wave4' in f or 'wave5' in f) else 'a')
     cur = None
     for line in open(f):
         m = re.match(r'== (C\d\d)', line)
